@@ -169,7 +169,7 @@ pub fn run_workers(res: &mut EngineResult, n: usize, prep: &str) {
     for i in 0..n {
         let out = format!("{base}.w{i}");
         let _ = std::fs::remove_file(&out);
-        let script = format!("ip link set lo up; echo '52000 60999' > /proc/sys/net/ipv4/ip_local_port_range; echo 0 > /proc/sys/net/ipv4/tcp_max_tw_buckets; {prep} exec \"$0\"");
+        let script = format!("ip link set lo up; echo '52000 60999' > /proc/sys/net/ipv4/ip_local_port_range; echo 1 > /proc/sys/net/ipv4/tcp_tw_reuse; {prep} exec \"$0\"");
         let child = std::process::Command::new("unshare")
             .args(["-n", "-m", "--propagation", "private", "--", "/bin/sh", "-c", &script])
             .arg(&exe)
